@@ -127,7 +127,7 @@ def gen_sem_case(ch, tier, ft=None, n_probes=6, force=0.0, same_action=False):
         probes.append({"action": a["name"], "args": args, "state": jstate(st)})
     return {"dom": dom, "objects": objects, "probes": probes,
             "perm": [ch.int(0, 23) for _ in range(ch.int(0, 6))],
-            "layout": [ch.int(0, 10) for _ in range(ch.int(0, 12))], "case_mode": ch.weighted([(6, 0), (1, 1), (1, 2)])}
+            "layout": [ch.int(0, 64) for _ in range(ch.int(0, 12))], "case_mode": ch.weighted([(6, 0), (1, 1), (1, 2)])}
 
 
 def layout_of(case):
